@@ -1,1 +1,237 @@
+"""
+E9 catalogue: realistic breaking edits ("mutant": the property's check must report a VIOLATION) and
+behaviour-preserving edits ("neutral": the check must stay at exit 0).  Edits are text replacements
+against the current tree (an edit whose anchor text no longer exists is skipped and reported).
+All mutants still compile; the sub-agent seeds under /verif/seeded are the *independent* test of the
+checks, this catalogue is the regression suite written by the checker's author.
+"""
+
+R = "src/cobald/daemon/runners/"
+C = "src/cobald/controller/"
+D = "src/cobald/decorator/"
+I = "src/cobald/interfaces/"
+K = "src/cobald/composite/"
+G = "src/cobald/daemon/"
+M = "src/cobald/monitor/"
+
 CATALOGUE = []
+
+
+def m(id, prop, rule, *edits, kind="mutant"):
+    CATALOGUE.append({"id": id, "prop": prop, "rule": rule, "kind": kind, "edits": [tuple(e) for e in edits]})
+
+
+def n(id, prop, *edits):
+    m(id, prop, None, *edits, kind="neutral")
+
+
+# ------------------------------------------------------------------ reverting the eight repaired defects
+m("revert-fix-C09", "C09", "O9.1", (C + "switch.py", "self.regulate(self.interval)", "self.regulate_demand(self.interval)"))
+m("revert-fix-C14", "C14", "O14.4", (G + "core/config.py", "dependencies.setdefault(before, set()).add(plugin.section)", "dependencies[before].add(plugin.section)"))
+m("revert-fix-C17-quote", "C17", "O17.2", (M + "format_line.py", '        "%s=%s" % (_escape_key(key), _escape_field(value))\n', '        ("%s=%s" % (_escape_key(key), _escape_field(value))).replace("\'", \'"\')\n'))
+m("revert-fix-C17-coerce", "C17", "O17.3", (M + "format_line.py", "_escape_key(str(value))", "_escape_key(value)"))
+m("revert-fix-C06", "C06", "O6.2", (D + "standardiser.py", "        return by_limits", "        return type(value)(by_limits)"))
+m("revert-fix-C04-leaf", "C04", "O4.4", (C + "stepwise.py", "*args, __leaf__=False, **kwargs)", "*args, __leaf__=True, **kwargs)"))
+m("revert-fix-C04-signature", "C04", "O4.3", (R + "service.py", "            __new_service__.__signature__ = signature.replace(", "            signature = signature.replace("))
+m("revert-fix-C03", "C03", "O3.5", (R + "trio_runner.py", "except (trio.RunFinishedError, trio.Cancelled, trio.ClosedResourceError):", "except (trio.RunFinishedError, trio.Cancelled):"))
+
+# ------------------------------------------------------------------ C01
+m("c01-falsy-swallowed", "C01", "O1.2", (R + "asyncio_runner.py", "            if result is None:\n                return\n            failure = OrphanedReturn(payload, result)\n        self._tasks", "            if not result:\n                return\n            failure = OrphanedReturn(payload, result)\n        self._tasks"))
+m("c01-thread-falsy", "C01", "O1.2", (R + "thread_runner.py", "            if result is None:", "            if not result:"))
+m("c01-trio-truthy-only", "C01", "O1.2", (R + "trio_runner.py", "        if value is not None:", "        if value:"))
+m("c01-orphan-loses-value", "C01", "O1.2", (R + "thread_runner.py", "OrphanedReturn(payload, result)", "OrphanedReturn(payload, None)"))
+m("c01-unmonitored-task", "C01", "O1.1", (R + "asyncio_runner.py", "self.asyncio_loop.create_task(self._monitor_payload(payload))", "self.asyncio_loop.create_task(payload())"))
+m("c01-unmonitored-thread", "C01", "O1.1", (R + "thread_runner.py", "target=self._monitor_payload, args=(payload,), daemon=True", "target=payload, daemon=True"))
+m("c01-unmonitored-nursery", "C01", "O1.1", (R + "trio_runner.py", "nursery.start_soon(self._monitor_payload, task)", "nursery.start_soon(task)"))
+m("c01-log-instead-of-signal", "C01", "O1.2", (R + "thread_runner.py", "        self.asyncio_loop.call_soon_threadsafe(self._set_failure, failure)", "        self._logger.error('payload failed: %s', failure)"))
+m("c01-return-exceptions", "C01", "O1.5", (R + "meta_runner.py", "await asyncio.gather(*runner_tasks, self._unqueue_payloads())", "await asyncio.gather(*runner_tasks, self._unqueue_payloads(), return_exceptions=True)"))
+m("c01-no-cause", "C01", "O1.6", (R + "meta_runner.py", 'raise RuntimeError("background task failed") from err', 'raise RuntimeError("background task failed") from None'))
+m("c01-swallow-in-run", "C01", "O1.4", (R + "base_runner.py", '            self._logger.exception("runner aborted: %s", self)\n            raise\n', '            self._logger.exception("runner aborted: %s", self)\n'))
+m("c01-supervisor-swallows", "C01", "O1.5", (R + "meta_runner.py", "            await asyncio.shield(self._aclose_runners(runner_tasks))\n            raise\n", "            await asyncio.shield(self._aclose_runners(runner_tasks))\n"))
+m("c01-runner-type-missing", "C01", "O1.5", (R + "meta_runner.py", "runner_types = (TrioRunner, AsyncioRunner, ThreadRunner)", "runner_types = (TrioRunner, AsyncioRunner)"))
+m("c01-service-unmonitored", "C01", "O1.8", (R + "service.py", "runner.register_payload(service.run, flavour=self.flavour)", "runner.run_payload(service.run, flavour=self.flavour)"))
+m("c01-manage-swallows", "C01", "O1.3", (R + "thread_runner.py", "    async def manage_payloads(self):\n        await self._payload_failure\n", "    async def manage_payloads(self):\n        try:\n            await self._payload_failure\n        except Exception:\n            self._logger.exception('payload failure')\n"))
+n("c01-n-inverted-none", "C01", (R + "thread_runner.py", "            if result is None:\n                return\n            failure = OrphanedReturn(payload, result)\n", "            if result is not None:\n                failure = OrphanedReturn(payload, result)\n            else:\n                return\n"))
+n("c01-n-eq-none", "C01", (R + "trio_runner.py", "        if value is not None:", "        if value != None:"))
+n("c01-n-helper", "C01", (R + "asyncio_runner.py", "        if not self._payload_failure.done():\n            self._payload_failure.set_exception(failure)\n\n    async def manage_payloads", "        self._fail(failure)\n\n    def _fail(self, failure):\n        if not self._payload_failure.done():\n            self._payload_failure.set_exception(failure)\n\n    async def manage_payloads"))
+
+# ------------------------------------------------------------------ C02
+m("c02-close-not-awaited", "C02", "O2.1", (R + "meta_runner.py", "            await asyncio.shield(self._aclose_runners(runner_tasks))\n            raise\n", "            asyncio.ensure_future(self._aclose_runners(runner_tasks))\n            raise\n"))
+m("c02-kbi-no-close", "C02", "O2.1", (R + "meta_runner.py", "            # Just clean up...\n            await asyncio.shield(self._aclose_runners(runner_tasks))\n", "            # Just clean up...\n            pass\n"))
+m("c02-while-to-if", "C02", "O2.3", (R + "asyncio_runner.py", "        while self._tasks:\n", "        if self._tasks:\n"))
+m("c02-no-cancel-scope", "C02", "O2.4", (R + "trio_runner.py", "            nursery.cancel_scope.cancel()\n", "            pass\n"))
+m("c02-daemon-false", "C02", "O2.5", (R + "thread_runner.py", "daemon=True", "daemon=False"))
+m("c02-no-join-of-tasks", "C02", "O2.2", (R + "meta_runner.py", "        await asyncio.gather(*runner_tasks, return_exceptions=True)\n", "        pass\n"))
+m("c02-remove-undone", "C02", "O2.3", (R + "asyncio_runner.py", "                else:\n                    task.cancel()\n", "                else:\n                    task.cancel()\n                    self._tasks.discard(task)\n"))
+m("c02-cancel-not-reraised", "C02", "O2.4", (R + "trio_runner.py", "            await self.aclose()\n            raise\n", "            await self.aclose()\n"))
+n("c02-n-inverted-done", "C02", (R + "asyncio_runner.py", "                if task.done():\n                    self._tasks.discard(task)\n                    # monitored tasks only propagate cancellation and KeyboardInterrupt\n                    # KeyboardInterrupt will abort the asyncio loop but mark the task\n                    # as exceptionally terminated – we explicitly fetch the exception\n                    # to mark it as retrieved/handled and avoid warnings.\n                    if not task.cancelled():\n                        task.exception()\n                else:\n                    task.cancel()\n", "                if not task.done():\n                    task.cancel()\n                else:\n                    self._tasks.discard(task)\n                    if not task.cancelled():\n                        task.exception()\n"))
+
+# ------------------------------------------------------------------ C03
+m("c03-constant-flavour", "C03", "O3.3", (R + "service.py", "        self._meta_runner.register_payload(payload, flavour=flavour)", "        self._meta_runner.register_payload(payload, flavour=threading)"))
+m("c03-kwargs-dropped", "C03", "O3.3", (R + "service.py", "            payload = functools.partial(payload, *args, **kwargs)\n        self._meta_runner.register_payload", "            payload = functools.partial(payload, *args)\n        self._meta_runner.register_payload"))
+m("c03-started-never-set", "C03", "O3.6", (R + "service.py", "            self._started = True\n", "            pass\n"))
+m("c03-double-register", "C03", "O3.1", (R + "meta_runner.py", "                runner.register_payload(payload)\n", "                runner.register_payload(payload)\n                runner.register_payload(payload)\n"))
+m("c03-queue-not-cleared", "C03", "O3.1", (R + "meta_runner.py", "            queue.clear()\n        self._runner_queues.clear()\n", "            pass\n"))
+m("c03-adopt-returns", "C03", "O3.4", (R + "service.py", "        self._meta_runner.register_payload(payload, flavour=flavour)", "        return self._meta_runner.run_payload(payload, flavour=flavour)"))
+m("c03-sweep-after-sleep", "C03", "O3.7", (R + "service.py", "                self._adopt_services()\n                await trio.sleep(delay)\n", "                await trio.sleep(delay)\n"))
+m("c03-unit-not-stored", "C03", "O3.6", (R + "service.py", "            self.__service_unit__ = service_unit\n", "            pass\n"))
+n("c03-n-closure", "C03", (R + "service.py", "        if args or kwargs:\n            payload = functools.partial(payload, *args, **kwargs)\n        self._meta_runner.register_payload", "        payload = functools.partial(payload, *args, **kwargs)\n        self._meta_runner.register_payload"))
+
+# ------------------------------------------------------------------ C04
+m("c04-swapped-curry", "C04", "O4.1", (I + "_partial.py", "self.ctor, *self.args, *args, __leaf__=self.leaf", "self.ctor, *args, *self.args, __leaf__=self.leaf"))
+m("c04-construct-order", "C04", "O4.5", (I + "_partial.py", "return self.ctor(*args, *self.args, **kwargs, **self.kwargs)", "return self.ctor(*self.args, *args, **kwargs, **self.kwargs)"))
+m("c04-dropped-reversed", "C04", "O4.7", (I + "_partial.py", "for owner in reversed(self.targets[:-1]):", "for owner in self.targets[:-1]:"))
+m("c04-permuted-bind", "C04", "O4.6", (I + "_partial.py", "return PartialBind(self, other.parent, *other.targets)", "return PartialBind(other.parent, self, *other.targets)"))
+m("c04-dropped-target", "C04", "O4.6", (I + "_partial.py", "return PartialBind(self.parent, *self.targets, other)", "return PartialBind(self.parent, other)"))
+m("c04-no-placeholder", "C04", "O4.2", (I + "_partial.py", "            if not self.leaf:\n                args = None, *args\n", "            pass\n"))
+m("c04-target-check-late", "C04", "O4.2", (I + "_partial.py", 'if "target" in kwargs or (args and isinstance(args[0], _pool.Pool)):', 'if False and "target" in kwargs:'))
+m("c04-leaf-constructed-twice", "C04", "O4.8", (I + "_partial.py", "            if other.leaf:\n                return self >> other.__construct__()\n", "            if other.leaf:\n                other.__construct__()\n                return self >> other.__construct__()\n"))
+m("c04-skip-check", "C04", "O4.1", (I + "_partial.py", "        self.leaf = __leaf__\n        self._check_signature()\n", "        self.leaf = __leaf__\n        if args:\n            self._check_signature()\n"))
+n("c04-n-slice-reverse", "C04", (I + "_partial.py", "for owner in reversed(self.targets[:-1]):", "for owner in self.targets[-2::-1]:"))
+n("c04-n-elif-to-if", "C04", (I + "_partial.py", "        elif isinstance(other, Partial):\n            if other.leaf:\n                return self >> other.__construct__()\n            return PartialBind(self, other)\n        else:\n            return self.__construct__(other)\n", "        if isinstance(other, Partial):\n            if other.leaf:\n                return self >> other.__construct__()\n            return PartialBind(self, other)\n        return self.__construct__(other)\n"))
+
+# ------------------------------------------------------------------ C05
+m("c05-star-less-sequence", "C05", "O5.1", (G + "config/yaml.py", "            return factory(*args)\n", "            return factory(args)\n"))
+m("c05-deep-constant", "C05", "O5.1", (G + "config/yaml.py", "kwargs = loader.construct_mapping(node, deep=eager)", "kwargs = loader.construct_mapping(node, deep=False)"))
+m("c05-target-dropped", "C05", "O5.3", (G + "core/config.py", 'item, where="%s[%s]" % (where, index), target=prev_item\n', 'item, where="%s[%s]" % (where, index)\n'))
+m("c05-forward-iteration", "C05", "O5.3", (G + "core/config.py", "for index, item in reversed(list(enumerate(pipeline))):", "for index, item in list(enumerate(pipeline)):"))
+m("c05-link-to-item", "C05", "O5.3", (G + "core/config.py", "                        prev_item = item >> prev_item\n", "                        prev_item = prev_item >> item\n"))
+m("c05-wide-try", "C05", "O5.4", (G + "core/config.py", "        try:\n            pipeline = structure[\"pipeline\"]\n        except (KeyError, TypeError):\n            return super().translate_hierarchy(\n                structure, where=where, **construct_kwargs\n            )\n        else:\n            prev_item, items = None, []\n", "        try:\n            pipeline = structure[\"pipeline\"]\n            pipeline = [self.translate_hierarchy(item) for item in pipeline]\n        except (KeyError, TypeError):\n            return super().translate_hierarchy(\n                structure, where=where, **construct_kwargs\n            )\n        else:\n            prev_item, items = None, []\n"))
+m("c05-no-rereverse", "C05", "O5.3", (G + "core/config.py", "            return list(reversed(items))", "            return items"))
+m("c05-factory-not-s", "C05", "O5.2", (G + "core/config.py", "            pipeline_factory = entry.load().s\n", "            pipeline_factory = entry.load().__call__\n"))
+n("c05-n-slice", "C05", (G + "core/config.py", "            return list(reversed(items))", "            return items[::-1]"))
+
+# ------------------------------------------------------------------ C06
+m("c06-swapped-clamps", "C06", "O6.2", (D + "standardiser.py", "        by_supply = _clamp(supply - self.backlog, value, supply + self.surplus)\n        by_limits = _clamp(self.minimum, by_supply, self.maximum)\n        return by_limits", "        by_limits = _clamp(self.minimum, value, self.maximum)\n        by_supply = _clamp(supply - self.backlog, by_limits, supply + self.surplus)\n        return by_supply"))
+m("c06-floor-after-clamp", "C06", "O6.2", (D + "standardiser.py", "self.target.demand = self._clamp_demand(_floor(value, self.granularity))", "self.target.demand = _floor(self._clamp_demand(value), self.granularity)"))
+m("c06-clamp-lt-to-gt", "C06", "O6.1", (D + "standardiser.py", "    if value < low:\n        return low\n    elif value > high:\n        return high", "    if value < low:\n        return high\n    elif value > high:\n        return low"))
+m("c06-round-not-floor", "C06", "O6.3", (D + "standardiser.py", "    return n // base * base", "    return round(n / base) * base"))
+m("c06-resync-gt", "C06", "O6.4", (D + "standardiser.py", "if abs(self._demand - self.target.demand) >= self.granularity:", "if abs(self._demand - self.target.demand) > self.granularity:"))
+m("c06-surplus-ge", "C06", "O6.5", (D + "standardiser.py", "enforce(surplus > 0,", "enforce(surplus >= 0,"))
+m("c06-min-max-flipped", "C06", "O6.5", (D + "standardiser.py", "enforce(minimum <= maximum,", "enforce(minimum >= maximum,"))
+m("c06-shortcut-wrong", "C06", "O6.6", (D + "standardiser.py", "        if self.granularity != 1:", "        if self.granularity > 1:"))
+m("c06-backlog-surplus-swapped", "C06", "O6.2", (D + "standardiser.py", "_clamp(supply - self.backlog, value, supply + self.surplus)", "_clamp(supply - self.surplus, value, supply + self.backlog)"))
+n("c06-n-clamp-le", "C06", (D + "standardiser.py", "    if value < low:\n        return low\n    elif value > high:\n        return high", "    if value <= low:\n        return low\n    elif value >= high:\n        return high"))
+n("c06-n-flipped-operands", "C06", (D + "standardiser.py", "    if value < low:", "    if low > value:"))
+n("c06-n-minmax", "C06", (D + "standardiser.py", "    return n // base * base", "    return n - n % base"))
+
+# ------------------------------------------------------------------ C07
+m("c07-copy-paste-attr", "C07", "O7.4", (K + "uniform.py", "return sum(child.allocation for child in self.children) / len(self.children)", "return sum(child.utilisation for child in self.children) / len(self.children)"))
+m("c07-weight-mismatch", "C07", "O7.3", (K + "weighted.py", "pool.demand = value * getattr(pool, self._weight) / self._total_weight", "pool.demand = value * pool.supply / self._total_weight"))
+m("c07-fallback-constant", "C07", "O7.5", (K + "uniform.py", "        except ZeroDivisionError:\n            return 1.0\n\n    @property\n    def allocation", "        except ZeroDivisionError:\n            return 0.0\n\n    @property\n    def allocation"))
+m("c07-undefined-flipped", "C07", "O7.5", (K + "weighted.py", "return 0.0 if self.supply > 0 else 1.0", "return 1.0 if self.supply > 0 else 0.0"))
+m("c07-setter-modifies", "C07", "O7.1", (K + "weighted.py", "        self._demand = value\n        child_count", "        self._demand = max(value, 0)\n        child_count"))
+m("c07-filtered-domain", "C07", "O7.2", (K + "weighted.py", "        return sum(child.supply for child in self.children)\n\n    @property\n    def utilisation", "        return sum(child.supply for child in self.children if child.demand > 0)\n\n    @property\n    def utilisation"))
+m("c07-weight-unvalidated", "C07", "O7.6", (K + "weighted.py", "        assert weight in (\n            \"supply\",\n            \"utilisation\",\n            \"allocation\",\n        ), \"weight must be either supply, utilisation or allocation\"\n", ""))
+n("c07-n-commuted", "C07", (K + "weighted.py", "pool.demand = value * getattr(pool, self._weight) / self._total_weight", "pool.demand = getattr(pool, self._weight) * value / self._total_weight"))
+
+# ------------------------------------------------------------------ C08
+m("c08-lt-to-le", "C08", "O8.1", (C + "linear.py", "if self.target.utilisation < self.low_utilisation:", "if self.target.utilisation <= self.low_utilisation:"))
+m("c08-gt-to-ge", "C08", "O8.1", (C + "linear.py", "elif self.target.allocation > self.high_allocation:", "elif self.target.allocation >= self.high_allocation:"))
+m("c08-rate-without-interval", "C08", "O8.1", (C + "linear.py", "self.target.demand += interval * self.rate", "self.target.demand += self.rate"))
+m("c08-relative-scales-swapped", "C08", "O8.2", (C + "relative_supply.py", "            self.target.demand = self.target.supply * self.low_scale\n", "            self.target.demand = self.target.supply * self.high_scale\n"))
+m("c08-relative-else-dropped", "C08", "O8.2", (C + "relative_supply.py", "        else:\n            self.target.demand = self.target.supply\n", ""))
+m("c08-range-closed", "C08", "O8.4", (C + "stepwise.py", "if low <= supply < high:", "if low <= supply <= high:"))
+m("c08-range-open", "C08", "O8.4", (C + "stepwise.py", "if low <= supply < high:", "if low < supply < high:"))
+m("c08-stepwise-truthy", "C08", "O8.4", (C + "stepwise.py", "            if demand is not None:\n                self.target.demand = demand", "            if demand:\n                self.target.demand = demand"))
+m("c08-switch-break", "C08", "O8.5", (C + "switch.py", "            if demand <= self.target.demand:\n                chosen = slave\n", "            if demand <= self.target.demand:\n                chosen = slave\n                break\n"))
+m("c08-switch-lt", "C08", "O8.5", (C + "switch.py", "            if demand <= self.target.demand:", "            if demand < self.target.demand:"))
+m("c08-assert-flipped", "C08", "O8.3", (C + "relative_supply.py", "        assert low_scale < 1\n", "        assert low_scale <= 1\n"))
+n("c08-n-elif-to-if", "C08", (C + "linear.py", "        elif self.target.allocation > self.high_allocation:", "        if self.target.allocation > self.high_allocation:"))
+n("c08-n-flipped", "C08", (C + "linear.py", "if self.target.utilisation < self.low_utilisation:", "if self.low_utilisation > self.target.utilisation:"))
+n("c08-n-commuted-step", "C08", (C + "linear.py", "self.target.demand -= interval * self.rate", "self.target.demand -= self.rate * interval"))
+
+# ------------------------------------------------------------------ C09
+m("c09-single-pass", "C09", "O9.2", (C + "linear.py", "        while True:\n            self.regulate(self.interval)\n            await trio.sleep(self.interval)", "        self.regulate(self.interval)\n        await trio.sleep(self.interval)"))
+m("c09-missing-sleep", "C09", "O9.2", (C + "relative_supply.py", "            self.regulate(self.interval)\n            await trio.sleep(self.interval)", "            self.regulate(self.interval)\n            await trio.sleep(0)"))
+m("c09-sleep-first", "C09", "O9.2", (C + "linear.py", "            self.regulate(self.interval)\n            await trio.sleep(self.interval)", "            await trio.sleep(self.interval)\n            self.regulate(self.interval)"))
+m("c09-wrong-period", "C09", "O9.3", (C + "linear.py", "            await trio.sleep(self.interval)", "            await trio.sleep(self.rate)"))
+m("c09-buffer-eager", "C09", "O9.4", (D + "buffer.py", "    demand = 0.0\n", "    pass\n"), (D + "buffer.py", "        self.demand = target.demand\n", "        pass\n"))
+m("c09-factory-inverted", "C09", "O9.5", (K + "factory.py", "            if supply > demand:\n                self._shrink(target=demand)\n            else:\n                self._grow(target=demand)", "            if supply < demand:\n                self._shrink(target=demand)\n            else:\n                self._grow(target=demand)"))
+m("c09-loop-break", "C09", "O9.2", (C + "stepwise.py", "            if demand is not None:\n                self.target.demand = demand\n            await trio.sleep(interval)", "            if demand is not None:\n                self.target.demand = demand\n            else:\n                break\n            await trio.sleep(interval)"))
+n("c09-n-local-interval", "C09", (C + "linear.py", "        while True:\n            self.regulate(self.interval)\n            await trio.sleep(self.interval)", "        interval = self.interval\n        while True:\n            self.regulate(interval)\n            await trio.sleep(interval)"))
+
+# ------------------------------------------------------------------ C10
+m("c10-private-trio-run", "C10", "O10.4", (R + "trio_runner.py", "        return trio.from_thread.run(payload, trio_token=self._trio_token)", "        return trio.run(payload)"))
+m("c10-result-wrapped", "C10", "O10.1", (R + "asyncio_runner.py", "        return future.result()", "        return [future.result()]"))
+m("c10-swallow", "C10", "O10.2", (R + "thread_runner.py", "        return payload()\n", "        try:\n            return payload()\n        except Exception as err:\n            self._logger.exception('payload failed')\n            return err\n"))
+m("c10-through-monitor", "C10", "O10.3", (R + "thread_runner.py", "        return payload()\n", "        return self._monitor_payload(payload)\n"))
+m("c10-no-token", "C10", "O10.5", (R + "trio_runner.py", "return trio.from_thread.run(payload, trio_token=self._trio_token)", "return trio.from_thread.run(payload)"))
+m("c10-other-loop", "C10", "O10.5", (R + "asyncio_runner.py", "asyncio.run_coroutine_threadsafe(payload(), self.asyncio_loop)", "asyncio.run_coroutine_threadsafe(payload(), asyncio.get_event_loop())"))
+
+# ------------------------------------------------------------------ C11
+m("c11-private-loop", "C11", "O11.1", (R + "asyncio_runner.py", "        future = asyncio.run_coroutine_threadsafe(payload(), self.asyncio_loop)\n        return future.result()", "        return asyncio.new_event_loop().run_until_complete(payload())"))
+m("c11-asyncio-run", "C11", "O11.1", (R + "asyncio_runner.py", "        future = asyncio.run_coroutine_threadsafe(payload(), self.asyncio_loop)\n        return future.result()", "        return asyncio.run(payload())"))
+m("c11-thread-in-loop", "C11", "O11.4", (R + "thread_runner.py", "        thread = threading.Thread(\n            target=self._monitor_payload, args=(payload,), daemon=True\n        )\n        thread.start()", "        self.asyncio_loop.call_soon_threadsafe(self._monitor_payload, payload)"))
+
+# ------------------------------------------------------------------ C12
+m("c12-release-in-else", "C12", "O12.1", (R + "guard.py", "                try:\n                    return fnc(*args, **kwargs)\n                finally:\n                    fnc_guard.release()", "                result = fnc(*args, **kwargs)\n                fnc_guard.release()\n                return result"))
+m("c12-blocking-acquire", "C12", "O12.1", (R + "guard.py", "if fnc_guard.acquire(blocking=False):", "if fnc_guard.acquire():"))
+m("c12-lock-per-call", "C12", "O12.1", (R + "guard.py", "        fnc_guard = via()\n\n        @functools.wraps(fnc)\n        def exclusive_call(*args, **kwargs):\n", "        @functools.wraps(fnc)\n        def exclusive_call(*args, **kwargs):\n            fnc_guard = via()\n"))
+m("c12-set-out-of-finally", "C12", "O12.2", (R + "service.py", "        finally:\n            self.running.clear()\n            self._is_shutdown.set()\n", "        self.running.clear()\n        self._is_shutdown.set()\n"))
+m("c12-wait-before-flag", "C12", "O12.3", (R + "service.py", "        self._must_shutdown = True\n        self._is_shutdown.wait()\n", "        self._is_shutdown.wait()\n        self._must_shutdown = True\n"))
+m("c12-no-reset", "C12", "O12.4", (R + "service.py", "        self._must_shutdown = False\n        self._logger.info(\"%s starting\"", "        self._logger.info(\"%s starting\""))
+m("c12-unbounded-delay", "C12", "O12.3", (R + "service.py", "                delay = min(delay + increase, max_delay)", "                delay = delay * 2 + increase"))
+m("c12-running-before-clear", "C12", "O12.2", (R + "service.py", "        self._is_shutdown.clear()\n        self.running.set()\n", "        self.running.set()\n        self._is_shutdown.clear()\n"))
+
+# ------------------------------------------------------------------ C13
+m("c13-park-outside-with", "C13", "O13.2", (G + "core/main.py", "    with load(path):\n        # sleep indefinitely to wait until the runtime is aborted\n        await asyncio.sleep(float(\"inf\"))", "    with load(path):\n        pass\n    # sleep indefinitely to wait until the runtime is aborted\n    await asyncio.sleep(float(\"inf\"))"))
+m("c13-flavour-trio", "C13", "O13.1", (G + "core/main.py", "runtime.adopt(_load_services, configuration, flavour=asyncio)", "runtime.adopt(_load_services, configuration, flavour=threading)"), (G + "core/main.py", "import asyncio\nimport sys", "import asyncio\nimport threading\nimport sys"))
+m("c13-unknown-ext-python", "C13", "O13.3", (G + "core/config.py", '    elif os.path.splitext(config_path)[1] == ".py":\n        c = load_python_configuration(config_path)\n    else:\n        raise ValueError(\n            "Unknown configuration extension: %r" % os.path.splitext(config_path)[1]\n        )', "    else:\n        c = load_python_configuration(config_path)"))
+m("c13-yield-none", "C13", "O13.2", (G + "core/config.py", "    yield c\n", "    del c\n    yield None\n"))
+m("c13-yaml-drops-result", "C13", "O13.2", (G + "config/yaml.py", "    return load_mapping_configuration(config_data=config_data, plugins=plugins)", "    load_mapping_configuration(config_data=config_data, plugins=plugins)\n    return config_data"))
+m("c13-adopt-after-accept", "C13", "O13.1", (G + "core/main.py", "    runtime.adopt(_load_services, configuration, flavour=asyncio)\n    runtime.accept()", "    runtime.accept()\n    runtime.adopt(_load_services, configuration, flavour=asyncio)"))
+
+# ------------------------------------------------------------------ C14
+m("c14-check-after-loop", "C14", "O14.1", (G + "config/mapping.py", "    unmatched = config_data.keys() - {plugin.section for plugin in plugins}\n    if unmatched:\n        raise ConfigurationError(\n            where=\"root\", what=\"unknown config sections %s\" % \", \".join(unmatched)\n        )\n    content = {}\n", "    content = {}\n"), (G + "config/mapping.py", "    return content\n", "    unmatched = config_data.keys() - {plugin.section for plugin in plugins}\n    if unmatched:\n        raise ConfigurationError(\n            where=\"root\", what=\"unknown config sections %s\" % \", \".join(unmatched)\n        )\n    return content\n"))
+m("c14-if-content", "C14", "O14.2", (G + "config/mapping.py", "            if plugin_content is not None:", "            if plugin_content:"))
+m("c14-swapped-orientation", "C14", "O14.3", (G + "core/config.py", "        plugin.section: set(plugin.after) for plugin in plugins.values()", "        plugin.section: set(plugin.before) for plugin in plugins.values()"))
+m("c14-result-dropped", "C14", "O14.2", (G + "config/mapping.py", "                content[plugin] = plugin_content\n", "                pass\n"))
+m("c14-required-ignored", "C14", "O14.2", (G + "config/mapping.py", "            if plugin.required:\n                raise ConfigurationError(\n                    where=\"root\", what=\"missing section %r\" % plugin.section\n                ) from None\n", "            pass\n"))
+m("c14-digest-in-try", "C14", "O14.2", (G + "config/mapping.py", "            section_data = config_data[plugin.section]\n        except KeyError:", "            section_data = config_data[plugin.section]\n            plugin_content = plugin.digest(section_data)\n        except KeyError:"), (G + "config/mapping.py", "            plugin_content = plugin.digest(section_data)\n            if plugin_content is not None:", "            if plugin_content is not None:"))
+m("c14-before-dropped-in-decorator", "C14", "O14.5", (G + "plugins.py", "required=required, before=frozenset(before), after=frozenset(after)", "required=required, before=frozenset(after), after=frozenset(after)"))
+n("c14-n-guarded-lookup", "C14", (G + "core/config.py", "            dependencies.setdefault(before, set()).add(plugin.section)", "            if before in dependencies:\n                dependencies[before].add(plugin.section)"))
+
+# ------------------------------------------------------------------ C15
+m("c15-release-without-zero", "C15", "O15.2", (K + "factory.py", "        child.demand = 0\n        self._hatchery.discard(child)", "        self._hatchery.discard(child)"))
+m("c15-discard-removed", "C15", "O15.2", (K + "factory.py", "        self._hatchery.discard(child)\n        self._mortuary.add(child)", "        self._mortuary.add(child)"))
+m("c15-grow-ge", "C15", "O15.4", (K + "factory.py", "        while missing_demand > 0:", "        while missing_demand >= 0:"))
+m("c15-shrink-lt", "C15", "O15.4", (K + "factory.py", "            if child.demand <= excess_demand:", "            if child.demand < excess_demand:"))
+m("c15-no-reap-after-grow", "C15", "O15.3", (K + "factory.py", "            missing_demand -= new_child.demand\n        self._reap_children()", "            missing_demand -= new_child.demand"))
+m("c15-revive", "C15", "O15.1", (K + "factory.py", "        missing_demand = target - sum(child.demand for child in self.children)\n", "        missing_demand = target - sum(child.demand for child in self.children)\n        for child in list(self._mortuary):\n            self._hatchery.add(child)\n"))
+m("c15-reap-lt", "C15", "O15.3", (K + "factory.py", "            if child.demand <= 0:\n                self._release_child(child)", "            if child.demand < 0:\n                self._release_child(child)"))
+m("c15-count-all", "C15", "O15.5", (K + "factory.py", "            return sum(child.utilisation for child in active_children) / len(\n                active_children\n            )", "            return sum(child.utilisation for child in active_children) / len(\n                self.children\n            )"))
+
+# ------------------------------------------------------------------ C16
+m("c16-forward-wrong-attr", "C16", "O16.1", (I + "_proxy.py", "        return self.target.utilisation", "        return self.target.allocation"))
+m("c16-log-after-write", "C16", "O16.3", (D + "logger.py", "                \"target\": self.target,\n            },\n        )\n        self.target.demand = value", "                \"target\": self.target,\n            },\n        )"), (D + "logger.py", "    def demand(self, value):\n        self._logger.log(", "    def demand(self, value):\n        self.target.demand = value\n        self._logger.log("))
+m("c16-key-mismatch", "C16", "O16.4", (D + "logger.py", "    consumption=_WarnValue(", "    usage=_WarnValue("))
+m("c16-field-wrong", "C16", "O16.3", (D + "logger.py", '"supply": self.target.supply,', '"supply": self.target.demand,'))
+m("c16-override-supply", "C16", "O16.2", (D + "buffer.py", "    demand = 0.0\n", "    demand = 0.0\n    supply = 0.0\n"))
+m("c16-keyerror-swallowed", "C16", "O16.5", (D + "logger.py", "            raise RuntimeError(\n                f\"invalid {type(self).__name__} message field: {e}\"\n            ) from None", "            warnings.warn(f\"invalid message field: {e}\")"))
+m("c16-level-constant", "C16", "O16.3", (D + "logger.py", "            self.level,\n            self.message,", "            logging.INFO,\n            self.message,"))
+
+# ------------------------------------------------------------------ C17
+m("c17-removed-escape", "C17", "O17.1", (M + "format_line.py", 'return key.replace(r",", r"\\,").replace(r"=", r"\\=").replace(r" ", r"\\ ")', 'return key.replace(r",", r"\\,").replace(r" ", r"\\ ")'))
+m("c17-swapped-escape-order", "C17", "O17.1", (M + "format_line.py", "field.replace(\"\\\\\", r\"\\\\\").replace('\"', r\"\\\"\")", "field.replace('\"', r\"\\\"\").replace(\"\\\\\", r\"\\\\\")"))
+m("c17-json-order", "C17", "O17.6", (M + "format_json.py", "        data[\"message\"] = record.getMessage() if args else record.msg\n        data.update(args)", "        data.update(args)\n        data[\"message\"] = record.getMessage() if args else record.msg"))
+m("c17-no-floor", "C17", "O17.4", (M + "format_line.py", "record.created // self._resolution * self._resolution", "record.created"))
+m("c17-ms-not-ns", "C17", "O17.4", (M + "format_line.py", '" %d" % (timestamp * 1e9)', '" %d" % (timestamp * 1e6)'))
+m("c17-defaults-override", "C17", "O17.5", (M + "format_line.py", "        tags = self._default_tags.copy()\n        tags.update(\n            {key: value for key, value in args.items() if key in self._tags_whitelist}\n        )", "        tags = {key: value for key, value in args.items() if key in self._tags_whitelist}\n        tags.update(self._default_tags)"))
+m("c17-no-newline", "C17", "O17.4", (M + "format_line.py", '    return output_str + "\\n"', "    return output_str"))
+n("c17-n-fstring", "C17", (M + "format_line.py", '"%s=%s" % (_escape_key(key), _escape_key(str(value)))', 'f"{_escape_key(key)}={_escape_key(str(value))}"'))
+
+# ------------------------------------------------------------------ C18
+m("c18-base-loader", "C18", "O18.1", (G + "core/config.py", "class COBalDLoader(SafeLoader):", "class COBalDLoader(BaseLoader):"))
+m("c18-unsafe-load", "C18", "O18.3", (G + "config/yaml.py", "        loader_instance = loader(yaml_stream)\n        try:\n            config_data = loader_instance.get_single_data()\n        finally:\n            loader_instance.dispose()\n", "        import yaml\n\n        config_data = yaml.unsafe_load(yaml_stream)\n"))
+m("c18-loader-not-passed", "C18", "O18.2", (G + "core/config.py", "            loader=COBalDLoader,  # type: ignore\n", ""))
+m("c18-catch-all-tag", "C18", "O18.4", (G + "core/config.py", '            tag="!" + entry.name,', "            tag=None,"))
+
+# ------------------------------------------------------------------ C19
+m("c19-enumerate-reversed", "C19", "O19.2", (G + "config/mapping.py", "for index, item in reversed(list(enumerate(structure)))", "for index, item in enumerate(reversed(structure))"))
+m("c19-always-rewrap", "C19", "O19.4", (G + "config/mapping.py", "            if err.where is None:\n                raise ConfigurationError(what=err.what, where=where) from err\n            raise", "            raise ConfigurationError(what=err.what, where=where) from err"))
+m("c19-where-dropped", "C19", "O19.3", (G + "config/mapping.py", 'key: self.translate_hierarchy(value, where="%s.%s" % (where, key))', "key: self.translate_hierarchy(value, where=where)"))
+m("c19-generic-first", "C19", "O19.4", (G + "config/mapping.py", "        except ConfigurationError as err:\n            if err.where is None:\n                raise ConfigurationError(what=err.what, where=where) from err\n            raise\n        except Exception as err:\n            raise ConfigurationError(where=where, what=err) from err", "        except Exception as err:\n            raise ConfigurationError(where=where, what=err) from err"))
+m("c19-args-not-popped", "C19", "O19.5", (G + "config/mapping.py", '        args = mapping.pop("__args__", [])', '        args = mapping.get("__args__", [])'))
+m("c19-construct-before-children", "C19", "O19.1", (G + "config/mapping.py", '                if "__type__" in structure:\n                    return self.construct(structure, **construct_kwargs)\n                return structure', '                return structure'), (G + "config/mapping.py", "            if isinstance(structure, dict):\n", '            if isinstance(structure, dict):\n                if "__type__" in structure:\n                    return self.construct(structure, **construct_kwargs)\n'))
+n("c19-n-fstring", "C19", (G + "config/mapping.py", 'item, where="%s[%s]" % (where, index)\n                            )\n                            for index, item in reversed(list(enumerate(structure)))', 'item, where=f"{where}[{index}]"\n                            )\n                            for index, item in reversed(list(enumerate(structure)))'))
